@@ -1032,6 +1032,13 @@ func runOnce(c C07Case) (v verdict) {
 	}
 	f.rt, f.dir = rt, rt.Dir
 	f.upd = map[int]int{}
+	if c.SyncSwallow {
+		// a runtime whose SyncFn swallows the callback's error
+		rt.SyncFn = func(ctx context.Context, cb adaptation.SyncCB) error {
+			cb(ctx, nil, nil)
+			return nil
+		}
+	}
 	// unsolicited updates of the plugins ("pressure" prologue): everything fails, and the list of
 	// failed updates that travels back to the plugin has the size the caller named
 	rt.UpdateFn = func(_ context.Context, u []*api.ContainerUpdate) ([]*api.ContainerUpdate, error) {
@@ -1268,6 +1275,9 @@ func runOnce(c C07Case) (v verdict) {
 	}
 	if nfaults == 0 {
 		v.classes = append(v.classes, "first-fault:none")
+	}
+	if c.SyncSwallow {
+		v.classes = append(v.classes, "syncfn-swallows-error")
 	}
 	if c.RtOpts != "" {
 		v.classes = append(v.classes, "rt-opts", "rt-opts:"+c.RtOpts)
